@@ -25,7 +25,7 @@ if [ "${SKIP_TESTS:-0}" != "1" ]; then
   fi
 fi
 for p in $props; do
-  out=$(JMON_REPO=$wt ./check $p --tier $tier 2>&1 | grep -E "^(C[0-9]+ tier|VIOLATION|  env=)" | head -6 | cut -c1-330)
+  out=$(JMON_REPO=$wt ./check $p --tier $tier 2>&1 | grep -E "^(C[0-9]+ tier|VIOLATION|INCONCLUSIVE|  env=)" | head -7 | cut -c1-330)
   echo "--- $p:"; echo "$out"
 done
 git -C /repo worktree remove --force $wt
